@@ -36,6 +36,8 @@ type Program struct {
 	Features map[string]int
 	// Stmts: for every top-level declaration, the half-open token range [from,to).
 	Decls [][2]int
+	// Stmts: every statement inside blocks, innermost last.
+	Stmts []StmtRange
 }
 
 type Opts struct {
@@ -50,11 +52,12 @@ type Opts struct {
 }
 
 type G struct {
-	R    *rand.Rand
-	O    Opts
-	toks []Tok
-	feat map[string]int
-	lbl  int
+	R      *rand.Rand
+	O      Opts
+	toks   []Tok
+	feat   map[string]int
+	lbl    int
+	ranges []StmtRange
 }
 
 func New(r *rand.Rand, o Opts) *G {
@@ -485,7 +488,21 @@ func (g *G) lvalue() string {
 	return s
 }
 
+// StmtRange locates one statement (at any nesting depth) in the token list.
+type StmtRange struct {
+	From, To int
+	Kind     string
+}
+
+// Stmt generates one statement and records its token range.
 func (g *G) Stmt(depth int, inSwitch bool) ast.Statement {
+	from := len(g.toks)
+	st := g.stmt0(depth, inSwitch)
+	g.ranges = append(g.ranges, StmtRange{From: from, To: len(g.toks), Kind: strings.TrimPrefix(fmt.Sprintf("%T", st), "*ast.")})
+	return st
+}
+
+func (g *G) stmt0(depth int, inSwitch bool) ast.Statement {
 	r := g.R
 	n := 22
 	if depth <= 0 {
@@ -1130,6 +1147,7 @@ func (g *G) sub(i int) ast.Statement {
 	if functional {
 		// a value-returning return statement without parentheses
 		g.f("return-value")
+		rfrom := len(g.toks)
 		g.t("return", "ReturnStatement#0", true)
 		e := g.Expr(2)
 		for e.first() == "other" {
@@ -1139,6 +1157,7 @@ func (g *G) sub(i int) ast.Statement {
 		v := g.emitExpr(e, "ReturnStatement#value", false)
 		g.t(";", "ReturnStatement#4", true)
 		g.eol()
+		g.ranges = append(g.ranges, StmtRange{From: rfrom, To: len(g.toks), Kind: "ReturnStatement/value"})
 		d.Block.Statements = append(d.Block.Statements, &ast.ReturnStatement{ReturnExpression: v})
 	}
 	g.t("}", "SubroutineDeclaration#end", true)
@@ -1149,7 +1168,7 @@ func (g *G) sub(i int) ast.Statement {
 // Program generates a whole file.
 func (g *G) Program() *Program {
 	p := &Program{}
-	g.toks, g.feat = nil, map[string]int{}
+	g.toks, g.feat, g.ranges = nil, map[string]int{}, nil
 	if g.O.StmtOnly {
 		for k := 1 + g.R.Intn(g.O.StmtsPer); k > 0; k-- {
 			from := len(g.toks)
@@ -1163,7 +1182,7 @@ func (g *G) Program() *Program {
 			p.Decls = append(p.Decls, [2]int{from, len(g.toks)})
 		}
 	}
-	p.Toks, p.Features = g.toks, g.feat
+	p.Toks, p.Features, p.Stmts = g.toks, g.feat, g.ranges
 	return p
 }
 
